@@ -424,7 +424,7 @@ fn family(api: &[ApiFn]) -> Vec<(String, GuestSpec)> {
     let mut perm: Vec<usize> = all.iter().rev().copied().collect();
     perm.rotate_left(3);
     let find = |name: &str| api.iter().position(|a| a.name == name).unwrap_or(0);
-    vec![
+    let mut fam = vec![
         (
             "full surface, API order".into(),
             GuestSpec { apis: all, foreign_first: false, foreign_between: false, own_stuff: false, memories: 1, module_name: API_MODULE.into(), own_state: false, foreign_memory: false, bad_sig: None, extra_import: None, dup: None, nonfunc: None, extra_nonfunc: None },
@@ -451,7 +451,16 @@ fn family(api: &[ApiFn]) -> Vec<(String, GuestSpec)> {
                 extra_nonfunc: None,
             },
         ),
-    ]
+    ];
+    // each string-carrying function on its own (plus one scalar function): what the glue looks like when
+    // nothing else is there to share helpers with
+    for name in ["shopify_function_input_read_utf8_str", "shopify_function_input_get_obj_prop", "shopify_function_output_new_utf8_str", "shopify_function_intern_utf8_str", "shopify_function_log_new_utf8_str"] {
+        fam.push((
+            format!("{} alone (with input_get)", name),
+            GuestSpec { apis: vec![find(name), find("shopify_function_input_get")], foreign_first: false, foreign_between: false, own_stuff: false, memories: 1, module_name: API_MODULE.into(), own_state: false, foreign_memory: false, bad_sig: None, extra_import: None, dup: None, nonfunc: None, extra_nonfunc: None },
+        ));
+    }
+    fam
 }
 
 fn cmd_glue(out: &str) -> Result<()> {
@@ -866,7 +875,7 @@ fn cmd_c04(seed: u64, n: u64, ops_path: &str, impl_path: &str) -> Result<()> {
         modules.push((trampoline(&wasm)?, idx, false, dup));
     }
     for i in 0..n {
-        let mi = if i % 3 == 0 { (i / 3) as usize % 3 } else { rng.below(modules.len() as u64) as usize };
+        let mi = if i % 3 == 0 { (i / 3) as usize % fam.len() } else { rng.below(modules.len() as u64) as usize };
         let (wasm, apis, in_family, dup) = &modules[mi];
         let mut k = apis[rng.below(apis.len() as u64) as usize];
         let mut path = ["api", "w", "t"][rng.below(3) as usize];
